@@ -272,10 +272,14 @@ def main():
             su2, sch2 = schemas.get(name) or rl_setups[name]
             if r["status"] != "ok":
                 unconfirmed.append((name, ["rule-level check"], [r.get("reason", "")[:300]]))
+            reported = set()
             for v in r["violations"]:
+                if v["rule"] in reported:
+                    continue              # one replay per rule: further stages / databases of the same rule are counted in the log line
                 ok, obs = canon.replay(harness, name, sch2, su2.prog, v)
                 lab = "rule-level: rule %s stage %d does not derive %s on the canonical database of its premise (%d variables)" % (v["rule"], v["stage"], v["missing"], v["variables"])
                 if ok:
+                    reported.add(v["rule"])
                     path = P.save_replay(prop, name + "_rule_" + v["rule"], allp[name]["eql"], v["script"] + [v["query"]], [obs], {"rule": v["rule"], "stage": v["stage"], "missing": v["missing"]}, kind="rule-level")
                     violations.append((name, [lab], path, (v["script"] + [v["query"]], [obs], {})))
                 else:
@@ -295,10 +299,14 @@ def main():
             su2, sch2 = schemas[name]
             if r["status"] != "ok":
                 unconfirmed.append((name, ["rule-level soundness check"], [r.get("reason", "")[:300]]))
+            reported = set()
             for v in r["violations"]:
+                if v["rule"] in reported:
+                    continue              # one replay per rule: further stages / databases of the same rule are counted in the log line
                 lab = "rule-level: rule %s (stage %d) pushes %s %s%s on the database %s, which no stage of the rule concludes there" % (v["rule"], v["stage"], v["kind"], v["rel"], v["tuple"], v["database"])
                 ok, obs, cert = canon.replay_sound(harness, name, su2, sch2, v, terminates=corpus.terminates(name))
                 if ok:
+                    reported.add(v["rule"])
                     path = P.save_replay(prop, name + "_rule_" + v["rule"], allp[name]["eql"], v["script"] + ["close"], [obs], {"violation": v, "least_model_of_the_rules_over_the_database": cert}, kind="rule-sound")
                     violations.append((name, [lab], path, (v["script"] + ["close"], [obs], {})))
                 else:
